@@ -326,7 +326,7 @@ def decide_file(idx, seed):
     return res
 
 
-def plan(tier, seed):
+def _plan_base(tier, seed):
     return harness.split("POOL", 320 if tier == "quick" else 4000, 10 if tier == "quick" else 50) + \
         harness.split("FILE", 40 if tier == "quick" else 600, 10 if tier == "quick" else 50)
 
@@ -337,7 +337,27 @@ def finish(agg):
                                 "distinct_nontrivial = dicts (pool x order) that mix a failing game with a solvable one; verdicts are per pool"}
 
 
+def plan(tier, seed):
+    from .. import harness as _h
+    return _h.split("THREADS", 6 if tier == "quick" else 18, 1) + _plan_base(tier, seed)
+
+
+def threads_pool(idx, seed):
+    """well-formed games (solvable and unsolvable) for the run_games-from-threads class, encoded for the worker process"""
+    rng = games.case_rng(seed, PID, "THREADS", idx)
+    out = []
+    for n, kind, g in make_pool(rng, 6) + make_pool(rng, 6):
+        if kind in ("solvable", "unsolvable") or kind.startswith("sibling"):
+            out.append({"rewards": g["rewards"], "players": g["players"], "transition_list": [[list(t) for t in tr] for tr in g["transition_list"]],
+                        "final_states": list(g["final_states"])})
+    return out[:8]
+
+
 def run_batch(batch):
+    if batch["cls"] == "THREADS":
+        from . import threads_common
+        yield from threads_common.run(batch, PID, None, EMIT_START, "batch", threads_pool)
+        return
     monitors.install()
     for idx in range(batch["start"], batch["start"] + batch["count"]):
         EMIT_START(idx)
@@ -348,6 +368,9 @@ def run_batch(batch):
 
 
 def replay(case):
+    if "threads" in case:
+        from . import threads_common
+        return threads_common.replay(case, PID, None, "batch", threads_pool)
     monitors.install()
     if "file" in case:
         return decide_file(case["file"], case.get("seed", 0))
